@@ -264,6 +264,8 @@ func (fields List) Get(name string) Field {
 	}
 	b := ptob(fields.p)
 	var i int
+	var sub Field
+	var hasSub bool
 	for {
 		// read the fname
 		var fname string
@@ -287,10 +289,11 @@ func (fields List) Get(name string) Field {
 			i += n + x
 		}
 		if kind == JSON && isj && fname == jname {
-			// a path into the JSON document of field jname
+			// a path into the JSON document of field jname, unless there is
+			// a field of exactly that name further on
 			res := gjson.Get(data, jpath)
 			if res.Exists() {
-				return bfield(name, Kind(res.Type), res.String())
+				sub, hasSub = bfield(name, Kind(res.Type), res.String()), true
 			}
 		}
 		// the list is sorted by the full name
@@ -300,6 +303,9 @@ func (fields List) Get(name string) Field {
 		if fname == name {
 			return bfield(name, kind, data)
 		}
+	}
+	if hasSub {
+		return sub
 	}
 	return ZeroField
 }
